@@ -2,9 +2,11 @@ package nodeprops
 
 import (
 	"fmt"
+	"net"
 	"reflect"
 	"sort"
 	"sync"
+	"sync/atomic"
 	"testing"
 	"time"
 
@@ -52,8 +54,11 @@ func c16heartbeats(rep *vh.Report, seed uint64, idx int, P time.Duration) (spaci
 		trs = append(trs, tr)
 		eps = append(eps, gomavlib.EndpointCustom{ReadWriteCloser: tr})
 	}
+	lport := freeTCPPort()
+	eps = append(eps, gomavlib.EndpointTCPServer{Address: fmt.Sprintf("127.0.0.1:%d", lport)})
+	spacingLate := false
 	node := &gomavlib.Node{Endpoints: eps, Dialect: d, OutVersion: gomavlib.V2, OutSystemID: 9, HeartbeatPeriod: P,
-		HeartbeatSystemType: sysType, HeartbeatAutopilotType: apType}
+		HeartbeatSystemType: sysType, HeartbeatAutopilotType: apType, IdleTimeout: 10 * time.Second}
 	t0 := time.Now()
 	if err := node.Initialize(); err != nil {
 		rep.HarnessError(err.Error())
@@ -74,11 +79,56 @@ func c16heartbeats(rep *vh.Report, seed uint64, idx int, P time.Duration) (spaci
 		}
 	}()
 	want := 24
-	time.Sleep(time.Duration(want)*P + P/2)
+	// half-way through, a peer connects to the TCP server endpoint: a channel that opens later gets the later ticks
+	time.Sleep(time.Duration(want/2) * P)
+	var late net.Conn
+	var lateHB int32
+	lateDone := make(chan struct{})
+	if c, err := net.Dial("tcp4", fmt.Sprintf("127.0.0.1:%d", lport)); err == nil {
+		late = c
+		_, _ = c.Write(uidFrame(1, 0, 3, false, nil, 0))
+		go func() {
+			defer close(lateDone)
+			var buf []byte
+			tmp := make([]byte, 2048)
+			for {
+				n, err := c.Read(tmp)
+				buf = append(buf, tmp[:n]...)
+				for len(buf) > 0 {
+					f, ln, st := ref.ParseAt(buf, 0)
+					if st != ref.ParseOK {
+						break
+					}
+					if f.MsgID == 0 {
+						atomic.AddInt32(&lateHB, 1)
+					}
+					buf = buf[ln:]
+				}
+				if err != nil {
+					return
+				}
+			}
+		}()
+	} else {
+		close(lateDone)
+	}
+	time.Sleep(time.Duration(want-want/2)*P + P/2)
 	close(stop)
 	node.Close()
 	tEnd := time.Now()
 	<-cons.done
+	if late != nil {
+		late.Close()
+		<-lateDone
+		n := int(atomic.LoadInt32(&lateHB))
+		rep.Count("late_channel_heartbeats", n)
+		if n < want/2-4 {
+			spacingLate = true
+		}
+		if n > want/2+2 {
+			rep.Violation("what=hb-rate", fmt.Sprintf("a channel opened half-way received %d heartbeats in %d periods", n, want/2), nil)
+		}
+	}
 	bound := int(tEnd.Sub(t0) / P)
 	counts := make([]int, k)
 	for ti, tr := range trs {
@@ -143,7 +193,7 @@ func c16heartbeats(rep *vh.Report, seed uint64, idx int, P time.Duration) (spaci
 	}
 	rep.Count("heartbeat_runs", 1)
 	rep.Distinct("hb", k, sysType, apType, ver, int(P/time.Millisecond))
-	return spacingBad
+	return spacingBad || spacingLate
 }
 
 func c16noHeartbeats(rep *vh.Report) {
